@@ -635,7 +635,10 @@ fn case_main(full: &str, faults: &str) {
         }
     };
     // the harness's own channels live on high numbers: the result line never goes through 0/1/2
-    let outfd = kit::raw_dup_high(1, 240).expect("dup of the result channel");
+    let outfd = kit::raw_dup_high(1, 240)
+        .or_else(|| kit::raw_dup_high(1, 100))
+        .or_else(|| kit::raw_dup_high(1, 3))
+        .expect("dup of the result channel");
     let (cr, cw) = kit::raw_pipe_cloexec();
     let op = std::mem::replace(&mut su.op, Box::new(|| nothing("".into())));
     // ---- entry state of the descriptor table
